@@ -473,6 +473,22 @@ func checkC16(c *core.Ctx) {
 			})
 			return found
 		}
+		// every way out of formatType passes the postfix loop
+		early := 0
+		var loopPos token.Pos
+		ast.Inspect(fmtf.Body, func(n ast.Node) bool {
+			if f, ok := n.(*ast.ForStmt); ok && strings.Contains(srcOf(p, f), "tokenKindOpenSquare") && loopPos == 0 {
+				loopPos = f.Pos()
+			}
+			return true
+		})
+		ast.Inspect(fmtf.Body, func(n ast.Node) bool {
+			if r, ok := n.(*ast.ReturnStmt); ok && (loopPos == 0 || r.Pos() < loopPos) {
+				early++
+			}
+			return true
+		})
+		c.Check("R3", "every path of formatType reaches the postfix [] loop", p.Pos(fmtf.Pos()), early == 0, fmt.Sprintf("%d return statements leave formatType before the loop that consumes postfix []: for that spelling of a type a following [] is left in the token stream and taken for the field name", early))
 		pl, fl := loops(pf), loops(fmtf)
 		c.Check("R3", "postfix [] repeats in the formatter as in the parser", p.Pos(fmtf.Pos()), !pl || fl, "readFieldType accepts any number of postfix [] in a loop, formatType handles at most one: T[][] is mis-split")
 	} else {
